@@ -527,6 +527,8 @@ def sym_method(it: Any, recv: Any, name: str, args: list, kwargs: dict, f: Any) 
                 return recv.t.as_long().to_bytes(length, str(getattr(order, "value", order)))
             order = str(getattr(order, "value", order))
             return ops.int_to_bytes(p, recv, length, order, kwargs.get("signed", False))
+        if name == "from_bytes":
+            return _int_from_bytes(it, args, kwargs, f)
         if name == "bit_length":
             raise Unsupported("bit_length of a symbolic int")
         raise Unsupported(f"int method {name}")
